@@ -615,6 +615,38 @@ def settle(timeout=20.0):
             CV.wait(min(rem, 0.02))
 
 
+def wait_for(pred, timeout=20.0):
+    """Wait (real time) until pred() holds; pred is evaluated with the monitor mutex held.  Usable from inside an
+    actor (unlike settle(), which would count the calling actor as running)."""
+    end = _real_monotonic() + timeout
+    with CV:
+        while not pred():
+            if LM.deadlocks:
+                return False
+            rem = end - _real_monotonic()
+            if rem <= 0:
+                raise Inconclusive("wait_for timeout: " + describe_threads())
+            CV.wait(min(rem, 0.02))
+    return True
+
+
+def quiescent_but_me():
+    """No tracked thread other than the caller can make progress on its own (call with the mutex held)."""
+    me = threading.current_thread()
+    for t in all_threads():
+        if t is me:
+            continue
+        if thread_state(t) == "running":
+            return False
+    return True
+
+
+def timed_waiter(role_part):
+    """A thread whose role contains role_part is parked in a timed wait (call with the mutex held)."""
+    return any((not w.woken) and w.deadline is not None and role_part in getattr(w.thread, "vf_role", "")
+               for w in CLOCK.waiters)
+
+
 def describe_threads():
     with MU:
         return ", ".join(
